@@ -186,6 +186,52 @@ def _perfect_root(fr, q):
     return Fraction(a, b)
 
 
+def _factor_pos(e, depth=40):
+    """e as  coef * prod atom**exponent  with coef a positive Fraction and every atom syntactically
+    positive; None if e is not such a product.  Used to distribute roots exactly."""
+    if e.op == "const":
+        return (e.args[0], {}) if e.args[0] > 0 else None
+    if depth == 0:
+        return None
+    if e.op == "mul":
+        a = _factor_pos(e.args[0], depth - 1)
+        if a is None:
+            return None
+        b = _factor_pos(e.args[1], depth - 1)
+        if b is None:
+            return None
+        d = dict(a[1])
+        for k, v in b[1].items():
+            d[k] = d.get(k, 0) + v
+        return a[0] * b[0], d
+    if e.op == "inv":
+        a = _factor_pos(e.args[0], depth - 1)
+        if a is None:
+            return None
+        return 1 / a[0], {k: -v for k, v in a[1].items()}
+    if e.op == "root":
+        a = _factor_pos(e.args[0], depth - 1)
+        if a is not None and a[0] == 1:
+            return Fraction(1), {k: v / e.args[1] for k, v in a[1].items()}
+        if is_pos(e.args[0]):
+            return Fraction(1), {e.args[0]: Fraction(1, e.args[1])}
+        return None
+    if is_pos(e):
+        return Fraction(1), {e: Fraction(1)}
+    return None
+
+
+def _pow_atom(base, ex):
+    """base ** ex for a positive atom and Fraction exponent: integer part as ipow, fractional part as
+    a power of ONE root atom root(base, d)."""
+    if ex == 0:
+        return ONE
+    if ex.denominator == 1:
+        return ipow(base, ex.numerator)
+    # a single root atom carries the whole power: polynomial in root(base, d)
+    return ipow(_intern("root", (base, ex.denominator)), ex.numerator)
+
+
 def root(a, q):
     """a ** (1/q) for a >= 0 (principal real root)."""
     if q == 1:
@@ -198,15 +244,39 @@ def root(a, q):
             r = _perfect_root(c, q)
             if r is not None:
                 return const(r)
-    # distribute over products/inverses/roots of syntactically positive factors:
-    # (x*y)^(1/q) = x^(1/q) y^(1/q), valid for x, y > 0.  Makes scaling identities polynomial.
-    if a.op == "mul" and is_pos(a.args[0]) and is_pos(a.args[1]):
-        return mul(root(a.args[0], q), root(a.args[1], q))
-    if a.op == "inv" and is_pos(a.args[0]):
-        return inv(root(a.args[0], q))
-    if a.op == "root":
-        return root(a.args[0], a.args[1] * q)
+            return _root_const(c, q)
+    # distribute exactly over products of syntactically positive factors:
+    # (c x^a y^b)^(1/q) = c^(1/q) x^(a/q) y^(b/q).  Makes scaling identities polynomial.
+    if a.op in ("mul", "inv", "root"):
+        f = _factor_pos(a)
+        if f is not None:
+            coef, d = f
+            out = ONE
+            if coef != 1:
+                pr = _perfect_root(coef, q)
+                out = const(pr) if pr is not None else _root_const(coef, q)
+            for base in sorted(d, key=lambda n: n.key):
+                out = mul(out, _pow_atom(base, d[base] / q))
+            return out
     return _intern("root", (a, q))
+
+
+def _root_const(c, q):
+    """root of a positive rational: pull out perfect q-th powers, keep root(n*d^(q-1), q)/d canonical"""
+    n, dn = c.numerator, c.denominator
+    # c^(1/q) = (n * dn^(q-1))^(1/q) / dn
+    m = n * dn ** (q - 1)
+    # extract perfect-power factors of m
+    out_int = 1
+    p = 2
+    mm = m
+    while p ** q <= mm and p < 2000:
+        while mm % (p ** q) == 0:
+            mm //= p ** q
+            out_int *= p
+        p += 1
+    r = _intern("root", (const(mm), q)) if mm != 1 else ONE
+    return mul(const(Fraction(out_int, dn)), r)
 
 
 def rpow(a, fr):
